@@ -1,6 +1,6 @@
 (* non-vacuity: concrete, non-trivial values meeting the hypotheses of each
    theorem of Properties.v (all by vm_compute) *)
-From V Require Import Common.Base C17.WriteSM C17.Spec C17.Proofs C17.CompileProofs C17.DiskProofs C17.SpecProofs.
+From V Require Import Common.Base C17.WriteSM C17.Spec C17.Proofs C17.CompileProofs C17.DiskProofs C17.SpecProofs C17.IOFail.
 From Coq Require Import String.
 
 Definition ex_opts := mkOpts true false false.
@@ -111,3 +111,15 @@ Example ex_foreign :
           (trace phys_id ex_opts (init ex_d0) [ex_oc1; ex_oc2; ex_oc3; ex_oc1]) = true /\
   lookup (disk (run phys_id ex_opts (init ex_d0) [ex_oc1; ex_oc2; ex_oc3; ex_oc1])) (P "/out/keep.txt") = Some [7].
 Proof. vm_compute. split; reflexivity. Qed.
+
+(* io_failure_reports_error / io_writes_...: one of two writes fails; a skipped
+   (unchanged) file at a failing path is not attempted and is no error *)
+Example ex_io_failure :
+  let '(st1, r1) := step_io phys_id true ex_opts (init ex_d0) ex_oc1 [P "/out/b.js"] in
+  r_errors r1 = true /\ r_failed_early r1 = false /\ r_effects r1 = [EWrite (P "/out/a.js") [10]] /\
+  keys (latest st1) = [P "/out/b.js"; P "/out/a.js"].
+Proof. vm_compute. repeat split; reflexivity. Qed.
+Example ex_io_skipped_path_not_attempted :
+  let st1 := fst (step phys_id ex_opts (init ex_d0) ex_oc1) in
+  r_errors (snd (step_io phys_id true ex_opts st1 ex_oc2 [P "/out/a.js"])) = false.
+Proof. vm_compute. reflexivity. Qed.
